@@ -50,7 +50,7 @@ impl Check for C18 {
         vec!["'strictly increasing' as defined by C12's reference classification".into()]
     }
     fn required_classes(&self, _t: Tier) -> Vec<&'static str> {
-        vec!["dim:1", "dim:2", "min:0", "min:4", "input:valid", "input:invalid", "inject:build", "inject:interp", "ep:scalar", "ep:interp", "ep:interp_into", "ep:array", "ep:array_into", "qdim:Ix2", "qdim:IxDyn", "query:nan-or-out-of-range", "query:nonstandard-layout", "trailing:zero-length"]
+        vec!["dim:1", "dim:2", "min:0", "min:4", "input:valid", "input:invalid", "inject:build", "inject:interp", "ep:scalar", "ep:interp", "ep:interp_into", "ep:array", "ep:array_into", "qdim:Ix2", "qdim:IxDyn", "query:nan-or-out-of-range", "query:nonstandard-layout", "trailing:zero-length", "query:repeated-adjacent"]
     }
 }
 
@@ -280,8 +280,18 @@ fn run<T: Flt>(src: &mut Src, obs: &mut Obs, two_d: bool) -> Result<(), Fail> {
             make_q::<T>(src, ax, c)
         }
     };
-    let qx: Vec<T> = (0..nqv).map(|_| gen_q(src, &xf)).collect();
-    let qy: Vec<T> = (0..nqv).map(|_| if two_d { gen_q(src, &yf) } else { T::zero() }).collect();
+    let mut qx: Vec<T> = (0..nqv).map(|_| gen_q(src, &xf)).collect();
+    let mut qy: Vec<T> = (0..nqv).map(|_| if two_d { gen_q(src, &yf) } else { T::zero() }).collect();
+    // runs of identical adjacent points (a trajectory standing still, clamped coordinates)
+    if nqv >= 2 && src.chance(1, 3) {
+        obs.class("query:repeated-adjacent");
+        for j in 1..nqv {
+            if src.chance(1, 3) {
+                qx[j] = qx[j - 1];
+                qy[j] = qy[j - 1];
+            }
+        }
+    }
     if any_special {
         obs.class("query:nan-or-out-of-range");
     }
